@@ -19,7 +19,7 @@ RULE = ('E1: every chain of k binary operators from {+ - * / & = <> < > <= >=} (
         'of length 3), operand '
         'kinds (number cell / text cell / literals) chosen so that the reference has an opinion; E2: random operator '
         'trees (depth<=4); each formula evaluated under workbook constants and under override valuations incl. a blank, a '
-        'negative and a decimal operand; E3: numeric literal sweep compared exactly with float(text). A formula is '
+        'negative and a decimal operand and operands of magnitude 1e-14..1e15; E3: numeric literal sweep compared exactly with float(text). A formula is '
         'non-trivial when at least two groupings (Excel / flat-left / flat-right) give different values under the '
         'valuation, i.e. a mis-grouping would be observable; literals: every distinct text counts')
 ASSUMPTIONS = ['vf/xlref is the reading of Excel operator semantics (precedence table of the statement)',
@@ -39,6 +39,8 @@ VALUATIONS = [
     [('A1', -4), ('B1', 2.5), ('C1', 7), ('D1', 0.5), ('E1', -3), ('A2', 'zz'), ('B2', 'a'), ('C2', 'm')],
     [('A1', 6), ('B1', -1.25), ('C1', 0.75), ('D1', 9), ('E1', 2), ('A2', 'q'), ('B2', 'q'), ('D2', 'bb')],
     [('A1', 100), ('B1', 7), ('C1', -2), ('D1', 3), ('E1', 0.1), ('A2', 'bb'), ('C2', 'a'), ('E2', 'a')],
+    # magnitudes far from 1: "15 significant digits" is not "15 decimal places"
+    [('A1', 1.23456789e-10), ('B1', 7e-14), ('C1', 2.5e15), ('D1', -3.3e-7), ('E1', 4.1e-9), ('A2', 'q'), ('B2', 'r')],
 ]
 NLITS = ['4', '9', '2.5', '0.5', '10']
 TLITS = ['"x"', '"yy"', '"a"']
@@ -185,21 +187,21 @@ def plan(tier, seed):
     shards = []
     if tier == 'quick':
         for part in range(10):
-            shards.append({'kind': 'chains', 'k': [1, 2], 'part': part, 'parts': 10, 'vals': [0, 1]})
+            shards.append({'kind': 'chains', 'k': [1, 2], 'part': part, 'parts': 10, 'vals': [0, 1, 4] if part % 2 else [0, 1]})
         for part in range(6):
             shards.append({'kind': 'chains', 'k': [3], 'part': part, 'parts': 24, 'vals': [0, 1], 'sample': 500})
         for part in range(6):
             shards.append({'kind': 'random', 'n': 400, 'depth': 4, 'vals': [0, 1, 2]})
         shards.append({'kind': 'literals', 'n': 5000})
-        shards.append({'kind': 'special', 'vals': [0, 1]})
+        shards.append({'kind': 'special', 'vals': [0, 1, 4]})
     else:
-        shards.append({'kind': 'special', 'vals': [0, 1, 2, 3]})
+        shards.append({'kind': 'special', 'vals': [0, 1, 2, 3, 4]})
         for part in range(8):
             shards.append({'kind': 'chains', 'k': [1, 2], 'part': part, 'parts': 8, 'vals': [0, 1, 2, 3]})
         for part in range(24):
             shards.append({'kind': 'chains', 'k': [3], 'part': part, 'parts': 24, 'vals': [0, 1, 2], 'sample': 1300})
         for part in range(10):
-            shards.append({'kind': 'random', 'n': 2000, 'depth': 4, 'vals': [0, 1, 2, 3]})
+            shards.append({'kind': 'random', 'n': 2000, 'depth': 4, 'vals': [0, 1, 2, 3, 4]})
         for part in range(6):
             shards.append({'kind': 'literals', 'n': 25000})
     return shards
